@@ -2,7 +2,7 @@
     Statements pinned here; proofs in Egg/Subsume.v. *)
 From Coq Require Import List ZArith Bool.
 Import ListNotations.
-Require Import Verif.gen.BridgeFns Verif.Egg.Model Verif.Egg.Rules Verif.Egg.Merge Verif.Egg.Subsume.
+Require Import Verif.gen.BridgeFns Verif.gen.SourceFacts Verif.Egg.Model Verif.Egg.Rules Verif.Egg.Merge Verif.Egg.Subsume Verif.Egg.Guards.
 
 (** the flag-combination translated from egglog-bridge (combine_subsumed = max) is OR: merging a
     subsumed row with a non-subsumed congruent row, in either order, gives a subsumed row *)
@@ -71,3 +71,18 @@ Example c13_example :
   /\ tab_sub (fst (fst (rebuild_rows [0; 0] MUnionId
      [mkRow [VId 0] (VId 0) false; mkRow [VId 1] (VId 1) true] []))) [VId 0] = true.
 Proof. split; vm_compute; reflexivity. Qed.
+
+(** the source AS WRITTEN NOW (regenerated facts): the frontend constrains every table atom of a
+    rule body to non-subsumed rows, which is exactly the model matcher's filter, and the flag does
+    reach the backend query; every table scan of the extractor's relaxation / parent-edge /
+    variant passes runs a closure whose whole body is `if !row.subsumed { .. }` *)
+Theorem c13_source_filters_subsumed :
+  (forall sub, row_passes query_subsumed_default sub = negb sub)
+  /\ query_table_passes_flag = true
+  /\ forallb (fun c => guarded_scan (fst c) (snd c)) extraction_calls = true
+  /\ 3 <= List.length extraction_calls.
+Proof.
+  exact (conj query_default_is_model_filter
+          (conj query_flag_reaches_backend (conj extraction_scans_guarded extraction_scans_count))).
+Qed.
+Print Assumptions c13_source_filters_subsumed.
